@@ -54,16 +54,22 @@ Definition bm_set_len_N (b : buf) (n : N) : outcome buf :=
 
 (** A stream as the reader sees it: a list of events.  A read of [room] bytes returns
     [min (|chunk|) room] bytes of the head chunk (the rest stays at the head), skips empty
-    chunks, fails with [e] at a [Fail e] event; no event left = 0 bytes = end of stream. *)
-Inductive chunk := Data (d : bytes) | Fail (e : N).
+    chunks, fails with [e] at a [Fail e] event (the code stands for an [io::ErrorKind] and a
+    message; the helper treats every kind alike), answers [Poll::Pending] at a [Pend] event
+    (the task is suspended; when it is polled again the read is issued again with the same
+    window); no event left = 0 bytes = end of stream. *)
+Inductive chunk := Data (d : bytes) | Fail (e : N) | Pend.
 Definition stream := list chunk.
 
-Fixpoint rd (cs : stream) (room : nat) : outcome bytes * stream :=
+Inductive rdout := RdData (got : bytes) | RdFail (e : N) | RdPending.
+
+Fixpoint rd (cs : stream) (room : nat) : rdout * stream :=
   match cs with
-  | [] => (Ok [], [])
+  | [] => (RdData [], [])
   | Data [] :: r => rd r room
-  | Data c :: r => (Ok (firstn room c), Data (skipn room c) :: r)
-  | Fail e :: r => (Err e, r)
+  | Data c :: r => (RdData (firstn room c), Data (skipn room c) :: r)
+  | Fail e :: r => (RdFail e, r)
+  | Pend :: r => (RdPending, r)
   end.
 
 Fixpoint stream_len (cs : stream) : nat :=
@@ -71,12 +77,21 @@ Fixpoint stream_len (cs : stream) : nat :=
   | [] => O
   | Data d :: r => (length d + stream_len r)%nat
   | Fail _ :: r => stream_len r
+  | Pend :: r => stream_len r
+  end.
+
+Fixpoint stream_pends (cs : stream) : nat :=
+  match cs with
+  | [] => O
+  | Pend :: r => S (stream_pends r)
+  | _ :: r => stream_pends r
   end.
 
 (** Result of [read_to_end_or_max]: the buffer afterwards and what is left in the reader. *)
 Inductive rres :=
 | RDone (b : buf) (rest : stream)        (* Ok(()) *)
 | RIoErr (e : N) (b : buf) (rest : stream) (* Err(e) *)
+| RCancelled (b : buf) (rest : stream)   (* the caller dropped the future while it was suspended *)
 | RPanic
 | RFuel.                                  (* the model's loop ran out of fuel: excluded by theorem *)
 
@@ -152,6 +167,20 @@ Section Alloc.
     obind (wb_writes w l) (fun w' =>
     obind (wb_into_inner w') (fun b => Ok (contents b)))).
 
+  (** the same with what [write] returns ([Ok(buf.len())]) added up by the caller, as
+      [write_all] / [io::copy] / an encoder do *)
+  Definition wb_write_n (w : wbuf) (src : bytes) : outcome (wbuf * nat) :=
+    obind (wb_write w src) (fun w' => Ok (w', length src)).
+  Fixpoint wb_writes_n (w : wbuf) (l : list bytes) (total : nat) : outcome (wbuf * nat) :=
+    match l with
+    | [] => Ok (w, total)
+    | s :: r => obind (wb_write_n w s) (fun wn => wb_writes_n (fst wn) r (total + snd wn))
+    end.
+  Definition wb_session_n (c : wctor) (l : list bytes) : outcome (bytes * nat) :=
+    obind (wb_make c) (fun w =>
+    obind (wb_writes_n w l 0) (fun wn =>
+    obind (wb_into_inner (fst wn)) (fun b => Ok (contents b, snd wn)))).
+
   (** ---- BytesCow::replace ---- ([usize] arithmetic explicit; [checked] = overflow checks on) *)
   Definition cow_replace (checked : bool) (b : buf) (start end_ : N) (rep : bytes) : outcome buf :=
     let start := if end_ <? start then end_ else start in     (* warn; remove.start = remove.end *)
@@ -171,6 +200,28 @@ Section Alloc.
     obind (bm_write_at_N b3 start hi rep) (fun b4 =>
     bm_set_len_N b4 new_len)))))))).
 
+  (** [BytesCow] itself: [Ref(Bytes)] is turned into [Mut] by copying the slice
+      ([BytesMut::from(&[u8])]: an exact-size allocation) the first time it is edited;
+      [replace] = [take_mut] (which leaves an empty [Mut] behind), the splice on the [BytesMut],
+      [*self = Mut(bytes)]. *)
+  Inductive cow := CRef (d : bytes) | CMut (b : buf).
+  Definition cow_bytes (c : cow) : bytes := match c with CRef d => d | CMut b => contents b end.
+  Definition cow_wf (c : cow) : Prop := match c with CRef _ => True | CMut b => wf b end.
+  Definition cow_ref_mut (c : cow) : buf := match c with CRef d => bm_of d 0 | CMut b => b end.
+  Definition cow_replace_c (checked : bool) (c : cow) (start end_ : N) (rep : bytes) : outcome cow :=
+    obind (cow_replace checked (cow_ref_mut c) start end_ rep) (fun b => Ok (CMut b)).
+  (** [freeze] / [into_mut]: what the caller reads afterwards *)
+  Definition cow_freeze (c : cow) : bytes := cow_bytes c.
+  Definition cow_into_mut (c : cow) : buf := cow_ref_mut c.
+
+  (** a chain of edits on the same [BytesCow] (the Present extensions, one after the other) *)
+  Definition edit := (N * N * bytes)%type.
+  Fixpoint cow_edits (checked : bool) (c : cow) (es : list edit) : outcome cow :=
+    match es with
+    | [] => Ok c
+    | (s, e, rep) :: r => obind (cow_replace_c checked c s e rep) (fun c' => cow_edits checked c' r)
+    end.
+
   (** ---- read_to_end_or_max ---- *)
   (** inner [fn reserve(read, buffer)] *)
   Definition rtm_reserve (read : nat) (b : buf) : outcome buf :=
@@ -189,16 +240,31 @@ Section Alloc.
   Definition put (b : buf) (read : nat) (got : bytes) : buf :=
     mkbuf (firstn read (b_data b) ++ got ++ skipn (read + length got) (b_data b)) (b_len b).
 
-  Fixpoint rtm_loop (fuel : nat) (max_len : N) (read : nat) (b : buf) (cs : stream) : rres :=
+  (** The loop, at the level of polls.  The only suspension point of the [async fn] is
+      [reader.read(..).await]; while it is suspended the buffer's length is its capacity.
+      [patience]: how many [Pending] answers the caller sits through before it drops the
+      future ([tokio::time::timeout], [select!]); [None] = it polls until the helper is done.
+      [guard = true] is today's code: a drop guard ([struct Restore]) sets the length to the
+      number of bytes read on every way out, the drop included; [guard = false] is the code
+      before that repair, which restored the length only on the three ways out it wrote itself. *)
+  Fixpoint rtm_loop (guard : bool) (fuel : nat) (max_len : N) (read : nat) (b : buf) (cs : stream)
+           (patience : option nat) : rres :=
     match fuel with
     | O => RFuel
     | S f =>
         if Nat.ltb (b_len b) read then RPanic else            (* &mut buffer[read..] *)
         let room := (b_len b - read)%nat in
         match rd cs room with
-        | (Err e, cs') => match bm_set_len b read with Ok b' => RIoErr e b' cs' | _ => RPanic end
-        | (Panic, _) => RPanic
-        | (Ok got, cs') =>
+        | (RdFail e, cs') => match bm_set_len b read with Ok b' => RIoErr e b' cs' | _ => RPanic end
+        | (RdPending, cs') =>
+            match patience with
+            | Some O =>                                        (* dropped here *)
+                if guard then match bm_set_len b read with Ok b' => RCancelled b' cs' | _ => RPanic end
+                else RCancelled b cs'
+            | Some (S k) => rtm_loop guard f max_len read b cs' (Some k)
+            | None => rtm_loop guard f max_len read b cs' None
+            end
+        | (RdData got, cs') =>
             match got with
             | [] => match bm_set_len b read with Ok b' => RDone b' cs' | _ => RPanic end   (* 0 => break *)
             | _ :: _ =>
@@ -208,27 +274,31 @@ Section Alloc.
                   match bm_set_len b1 read' with Ok b' => RDone b' cs' | _ => RPanic end
                 else
                   match rtm_reserve read' b1 with
-                  | Ok b2 => rtm_loop f max_len read' b2 cs'
+                  | Ok b2 => rtm_loop guard f max_len read' b2 cs' patience
                   | _ => RPanic
                   end
             end
         end
     end.
 
-  (** [legacy = true] is the code before the repair: the first call was [reserve(0, buffer)]
+  (** [legacy = true] is the code before the first repair: the first call was [reserve(0, buffer)]
       (guarded by an always-true [capacity() == len()] after [set_len(capacity())]). *)
-  Definition read_to_end_or_max (legacy : bool) (b : buf) (cs : stream) (max_len : N) : rres :=
+  Definition read_poll (legacy guard : bool) (b : buf) (cs : stream) (max_len : N) (patience : option nat) : rres :=
     let read := b_len b in
     if max_len <=? N.of_nat read then RDone b cs else
     match bm_set_len b (capacity b) with
     | Ok b1 =>
         match (if Nat.eqb (capacity b1) (b_len b1)
                then rtm_reserve (if legacy then O else read) b1 else Ok b1) with
-        | Ok b2 => rtm_loop (S (stream_len cs)) max_len read b2 cs
+        | Ok b2 => rtm_loop guard (S (stream_len cs + stream_pends cs)) max_len read b2 cs patience
         | _ => RPanic
         end
     | _ => RPanic
     end.
+
+  (** awaited to the end (nobody drops the future) *)
+  Definition read_to_end_or_max (legacy : bool) (b : buf) (cs : stream) (max_len : N) : rres :=
+    read_poll legacy true b cs max_len None.
 
   (** [kvarn::read::file] without a cache (src/read.rs [read], non-uring): the file is a
       stream; [None] (here [Err 0]) when it cannot be read. *)
@@ -236,9 +306,95 @@ Section Alloc.
     match read_to_end_or_max false (bm_with_capacity 4096) cs u64_max with
     | RDone b _ => Ok (contents b)
     | RIoErr _ _ _ => Err 0
+    | RCancelled _ _ => Err 2            (* read::file awaits to the end *)
     | RPanic => Panic
     | RFuel => Err 1
     end.
+
+  (** ---- src/read.rs: [file], [file_cached], [file_cached_with_mtime] over a [FileCache] ---- *)
+  (** A file system: path (a number) -> what reading the file delivers and its mtime; a path
+      without a binding cannot be opened; a directory opens and fails at the first read. *)
+  Record fnode := mkfnode { fn_stream : stream; fn_mtime : N }.
+  Definition fsys := list (N * fnode).
+  (** [FileCache]: path -> [None] (could not be read) | [Some (mtime, bytes)]; an [insert]
+      replaces, no entry is evicted (the harness stays far below moka's capacity). *)
+  Definition fcache := list (N * option (N * bytes)).
+  Fixpoint alookup {A} (k : N) (l : list (N * A)) : option A :=
+    match l with
+    | [] => None
+    | (k', v) :: r => if k =? k' then Some v else alookup k r
+    end.
+
+  (** private [async fn read(path)] (non-uring): [None] when the file cannot be opened or a read fails *)
+  Definition fs_read (fs : fsys) (p : N) : outcome (option bytes) :=
+    match alookup p fs with
+    | None => Ok None
+    | Some n => match read_file (fn_stream n) with Ok d => Ok (Some d) | Err _ => Ok None | Panic => Panic end
+    end.
+  Definition fs_stat (fs : fsys) (p : N) : option N := option_map fn_mtime (alookup p fs).
+
+  Inductive fvariant := VFile | VCached | VCachedMtime.
+  (** the answer: the bytes and, for [file_cached_with_mtime], the modification time *)
+  Definition fres := option (bytes * option N).
+
+  Section Reader.
+    (** the three functions, parametric in how a path is read (the model: [fs_read]; the
+        specification: the file's content itself) *)
+    Variable reader : fsys -> N -> outcome (option bytes).
+    Variable now : N.
+
+    Definition fc_read (v : fvariant) (fs : fsys) (p : N) (cache : option fcache) : outcome (fres * option fcache) :=
+      let hit := match cache with Some c => alookup p c | None => None end in
+      match hit with
+      | Some opt =>                                           (* let (mtime, file) = opt?; *)
+          Ok (match opt with
+              | None => None
+              | Some (m, d) => Some (d, match v with VCachedMtime => Some m | _ => None end)
+              end, cache)
+      | None =>
+          obind (reader fs p) (fun buffer =>
+          match v with
+          | VFile => Ok (option_map (fun d => (d, None)) buffer, cache)
+          | VCached =>
+              match cache, buffer with
+              | Some c, Some d =>
+                  let m := match fs_stat fs p with Some m => m | None => now end in
+                  Ok (Some (d, None), Some ((p, Some (m, d)) :: c))
+              | Some c, None => Ok (None, Some ((p, None) :: c))
+              | None, _ => Ok (option_map (fun d => (d, None)) buffer, None)
+              end
+          | VCachedMtime =>
+              match cache, buffer with
+              | Some c, Some d =>
+                  match fs_stat fs p with
+                  | None => Ok (None, Some c)                 (* stat(..).await? *)
+                  | Some m => Ok (Some (d, Some m), Some ((p, Some (m, d)) :: c))
+                  end
+              | Some c, None => Ok (None, Some ((p, None) :: c))
+              | None, Some d => Ok (match fs_stat fs p with Some m => Some (d, Some m) | None => None end, None)
+              | None, None => Ok (None, None)
+              end
+          end)
+      end.
+
+    (** a history: the files change, reads go through one [FileCache] or past it *)
+    Inductive fop := FWrite (p : N) (cs : stream) (mtime : N) | FRemove (p : N) | FRead (v : fvariant) (p : N) (cached : bool).
+    Fixpoint fs_remove (p : N) (fs : fsys) : fsys :=
+      match fs with
+      | [] => []
+      | (k, v) :: r => if p =? k then fs_remove p r else (k, v) :: fs_remove p r
+      end.
+    Fixpoint files_run (fs : fsys) (c : fcache) (ops : list fop) : outcome (list fres) :=
+      match ops with
+      | [] => Ok []
+      | FWrite p cs m :: r => files_run ((p, mkfnode cs m) :: fs) c r
+      | FRemove p :: r => files_run (fs_remove p fs) c r
+      | FRead v p cached :: r =>
+          obind (fc_read v fs p (if cached then Some c else None)) (fun a =>
+          obind (files_run fs (match snd a with Some c' => c' | None => c end) r) (fun rs =>
+          Ok (fst a :: rs)))
+      end.
+  End Reader.
 End Alloc.
 
 (** ---- Specifications (independent of buffers, capacities and junk) ---- *)
@@ -246,12 +402,14 @@ End Alloc.
 (** removing [s..e] and inserting [rep] *)
 Definition splice (s e : nat) (rep body : bytes) : bytes := firstn s body ++ rep ++ skipn e body.
 
-(** the bytes a stream delivers before its first failure, and that failure *)
+(** the bytes a stream delivers before its first failure, and that failure
+    ([Pend] events delay the bytes, they do not change them) *)
 Fixpoint pre_fail (cs : stream) : bytes * option N :=
   match cs with
   | [] => ([], None)
   | Data d :: r => let (p, f) := pre_fail r in (d ++ p, f)
   | Fail e :: _ => ([], Some e)
+  | Pend :: r => pre_fail r
   end.
 
 (** What [read_to_end_or_max] may answer for a buffer that held [init], a stream [cs] and
@@ -260,7 +418,8 @@ Fixpoint pre_fail (cs : stream) : bytes * option N :=
       keeps exactly the remainder, and either the stream ended (all bytes taken, no failure)
       or the buffer is at least [max] long;
     - [Err e]: [e] is the stream's first failure and the buffer is [init] followed by every
-      byte delivered before it. *)
+      byte delivered before it;
+    - nothing else when the future is awaited to its end. *)
 Definition read_spec (init : bytes) (cs : stream) (max : N) (r : rres) : Prop :=
   match r with
   | RDone b' rest =>
@@ -268,8 +427,51 @@ Definition read_spec (init : bytes) (cs : stream) (max : N) (r : rres) : Prop :=
         fst (pre_fail cs) = taken ++ fst (pre_fail rest) /\ snd (pre_fail rest) = snd (pre_fail cs) /\
         ((fst (pre_fail rest) = [] /\ snd (pre_fail cs) = None) \/ max <= N.of_nat (length (contents b')))
   | RIoErr e b' rest => snd (pre_fail cs) = Some e /\ contents b' = init ++ fst (pre_fail cs)
-  | RPanic | RFuel => False
+  | RCancelled _ _ | RPanic | RFuel => False
   end.
+
+(** The point at which a caller with patience [k] drops the future: the bytes delivered before
+    the [(k+1)]-th [Pend] and the events behind it; [None] when the stream fails or ends first. *)
+Fixpoint before_stall (k : nat) (cs : stream) : option (bytes * stream) :=
+  match cs with
+  | [] => None
+  | Data d :: r => match before_stall k r with Some (p, rest) => Some (d ++ p, rest) | None => None end
+  | Fail _ :: _ => None
+  | Pend :: r => match k with O => Some ([], r) | S k' => before_stall k' r end
+  end.
+
+Definition rres_rest (r : rres) : stream :=
+  match r with RDone _ rest | RIoErr _ _ rest | RCancelled _ rest => rest | _ => [] end.
+
+(** The same for a caller that may drop the future:
+    - cancelled: the caller's patience [k] ran out at the [(k+1)]-th [Pending]; the buffer is
+      well formed again and holds [init] followed by exactly the bytes delivered before that
+      point, it is shorter than [max], and the reader keeps everything behind that point;
+    - any other answer obeys [read_spec] and was given before the patience ran out. *)
+Definition poll_spec (init : bytes) (cs : stream) (max : N) (patience : option nat) (r : rres) : Prop :=
+  match r with
+  | RCancelled b' rest =>
+      exists k pre, patience = Some k /\ before_stall k cs = Some (pre, rest) /\
+        wf b' /\ contents b' = init ++ pre /\ N.of_nat (length (contents b')) < max
+  | _ => read_spec init cs max r /\
+         match patience with Some k => (stream_pends cs <= k + stream_pends (rres_rest r))%nat | None => True end
+  end.
+
+(** a chain of splices; an edit whose end lies beyond the body panics *)
+Fixpoint splice_edits (body : bytes) (es : list edit) : outcome bytes :=
+  match es with
+  | [] => Ok body
+  | (s, e, rep) :: r =>
+      if e <=? N.of_nat (length body) then splice_edits (splice (N.to_nat (N.min s e)) (N.to_nat e) rep body) r
+      else Panic
+  end.
+
+(** what a file holds: the bytes it delivers when none of its reads fails *)
+Definition fs_content (fs : fsys) (p : N) : outcome (option bytes) :=
+  Ok (match alookup p fs with
+      | None => None
+      | Some n => match pre_fail (fn_stream n) with (d, None) => Some d | (_, Some _) => None end
+      end).
 
 (** ---- executable instances used by the correspondence run ---- *)
 
@@ -279,33 +481,35 @@ Definition grow_vec (cap need : nat) : nat := Nat.max 8 (Nat.max (2 * cap) need)
 Definition junk_of (pat : bytes) (d : bytes) (i : nat) : N := nth i pat (hd 170 pat + N.of_nat (length pat)).
 
 Definition d_chunk (x : xval) : option chunk :=
-  match x with XB d => Some (Data d) | XN e => Some (Fail e) | _ => None end.
+  match x with XB d => Some (Data d) | XN e => Some (Fail e) | XL [] => Some Pend | _ => None end.
 
 Definition d_wctor (x : xval) : option wctor :=
   match x with
   | XL [XN 0] => Some WNew
   | XL [XN 1; XN c] => Some (WCap (N.to_nat c))
   | XL [XN 2; XB init; XN spare] => Some (WFrom init (N.to_nat spare))
+  | XL [XN 2; XB init; XN spare; XN _] => Some (WFrom init (N.to_nat spare))   (* in which representation: no concern of the model *)
   | _ => None
   end.
 
 Fixpoint sum_len (l : list bytes) : nat :=
   match l with [] => O | s :: r => (length s + sum_len r)%nat end.
 
-(** input: (L ctor (L writes...) (B junk)) *)
+(** input: (L ctor (L writes...) (B junk) [driver]); the driver (how the real side issues the writes) does not
+    concern the model: whatever way the slices are handed to [write], these are the calls it sees *)
 Definition run_writeable (x : xval) : xval :=
   match x with
-  | XL [c; ws; XB pat] =>
+  | XL (c :: ws :: XB pat :: _) =>
       match d_wctor c, d_list d_B ws with
       | Some c, Some ws =>
-          x_outcome (fun r => XL [XB r; x_nat (sum_len ws)]) (wb_session grow_vec (junk_of pat) c ws)
+          x_outcome (fun r => XL [XB (fst r); x_nat (snd r)]) (wb_session_n grow_vec (junk_of pat) c ws)
       | _, _ => bad_input
       end
   | _ => bad_input
   end.
 Definition run_writeable_spec (x : xval) : xval :=
   match x with
-  | XL [c; ws; XB _] =>
+  | XL (c :: ws :: XB _ :: _) =>
       match d_wctor c, d_list d_B ws with
       | Some c, Some ws => x_outcome (fun r => XL [XB r; x_nat (sum_len ws)]) (Ok (wctor_init c ++ concat ws))
       | _, _ => bad_input
@@ -313,19 +517,23 @@ Definition run_writeable_spec (x : xval) : xval :=
   | _ => bad_input
   end.
 
-(** input: (L checked (N kind) (B body) (N spare) (N start) (N end) (B rep) (B junk));
-    kind 0 ([BytesCow::Ref]): [take_mut] copies the slice, no spare capacity. *)
+(** the body as the storage kind of the real side holds it: kinds 0 and 6 are [BytesCow::Ref] *)
+Definition cow_of (pat : bytes) (kind : N) (body : bytes) (spare : N) : cow :=
+  if (kind =? 0) || (kind =? 6) then CRef body else CMut (bm_of (junk_of pat) body (N.to_nat spare)).
+
+(** input: (L checked (N kind) (B body) (N spare) (N start) (N end) (B rep) (B junk)) *)
 Definition run_replace (x : xval) : xval :=
   match x with
   | XL [c; XN kind; XB body; XN spare; XN s; XN e; XB rep; XB pat] =>
       match d_bool c with
       | Some checked =>
-          let b := bm_of (junk_of pat) body (if N.eqb kind 0 then O else N.to_nat spare) in
-          x_outcome (fun b' => XB (contents b')) (cow_replace grow_vec (junk_of pat) checked b s e rep)
+          x_outcome (fun c' => XB (cow_bytes c')) (cow_replace_c grow_vec (junk_of pat) checked (cow_of pat kind body spare) s e rep)
       | None => bad_input
       end
   | _ => bad_input
   end.
+(** out of bounds ([end] beyond the body) the only answer that cannot show bytes nobody wrote is the panic
+    ("removed more than what was available"); [replace_panics_iff] *)
 Definition run_replace_spec (x : xval) : xval :=
   match x with
   | XL [c; XN kind; XB body; XN spare; XN s; XN e; XB rep; XB pat] =>
@@ -334,39 +542,86 @@ Definition run_replace_spec (x : xval) : xval :=
   | _ => bad_input
   end.
 
-Definition stream_rest_len (cs : stream) : nat := stream_len cs.
+Definition d_edit (x : xval) : option edit :=
+  match x with XL [XN s; XN e; XB rep] => Some (s, e, rep) | _ => None end.
+(** input: (L checked (N kind) (B body) (N spare) (L (L (N s) (N e) (B rep))...) (N post) (B junk));
+    post: 0 deref, 1 freeze, 2 into_mut, 3 ref_mut *)
+Definition run_replace_seq (x : xval) : xval :=
+  match x with
+  | XL [c; XN kind; XB body; XN spare; es; XN post; XB pat] =>
+      match d_bool c, d_list d_edit es with
+      | Some checked, Some es =>
+          x_outcome XB
+            (obind (cow_edits grow_vec (junk_of pat) checked (cow_of pat kind body spare) es) (fun c' =>
+             Ok (if post =? 1 then cow_freeze c'
+                 else if (post =? 2) || (post =? 3) then contents (cow_into_mut (junk_of pat) c')
+                 else cow_bytes c')))
+      | _, _ => bad_input
+      end
+  | _ => bad_input
+  end.
+Definition run_replace_seq_spec (x : xval) : xval :=
+  match x with
+  | XL [c; XN kind; XB body; XN spare; es; XN post; XB pat] =>
+      match d_list d_edit es with
+      | Some es => x_outcome XB (splice_edits body es)
+      | None => bad_input
+      end
+  | _ => bad_input
+  end.
 
 Definition x_rres (total : nat) (r : rres) : xval :=
   match r with
   | RDone b rest => XL [XN 0; XB (contents b); x_nat (total - stream_len rest)]
   | RIoErr e b rest => XL [XN 1; XN e; XB (contents b); x_nat (total - stream_len rest)]
+  | RCancelled b rest => XL [XN 4; XB (contents b); x_nat (total - stream_len rest)]
   | RPanic => XL [XN 2]
   | RFuel => XL [XN 3]
   end.
 
-(** input: (L (B init) (N spare) (N max) (L ev...) (B junk)) *)
-Definition run_read_gen (legacy : bool) (x : xval) : xval :=
+(** the caller's patience: absent or (L) = awaits to the end; (L (N k)) = drops the future at the (k+1)-th Pending;
+    (L (N 0) (N ms)) = the same by [tokio::time::timeout] (how long is no concern of the model) *)
+Definition d_patience (l : list xval) : option (option nat) :=
+  match l with
+  | [] => Some None
+  | XL [] :: _ => Some None
+  | XL [XN k] :: _ => Some (Some (N.to_nat k))
+  | XL [XN 0; XN _] :: _ => Some (Some O)
+  | _ => None
+  end.
+
+(** input: (L (B init) (N spare) (N max) (L ev...) (B junk) [patience [storage]]); the storage (which representation
+    of [BytesMut] the real side hands in) only changes how the allocation grows, which the theorems leave open *)
+Definition run_read_gen (legacy guard : bool) (x : xval) : xval :=
   match x with
-  | XL [XB init; XN spare; XN max; evs; XB pat] =>
-      match d_list d_chunk evs with
-      | Some cs =>
+  | XL (XB init :: XN spare :: XN max :: evs :: XB pat :: pt) =>
+      match d_list d_chunk evs, d_patience pt with
+      | Some cs, Some patience =>
           x_rres (stream_len cs)
-            (read_to_end_or_max grow_vec (junk_of pat) legacy (bm_of (junk_of pat) init (N.to_nat spare)) cs max)
-      | None => bad_input
+            (read_poll grow_vec (junk_of pat) legacy guard (bm_of (junk_of pat) init (N.to_nat spare)) cs max patience)
+      | _, _ => bad_input
       end
   | _ => bad_input
   end.
-Definition run_read := run_read_gen false.
-Definition run_read_legacy := run_read_gen true.
+Definition run_read := run_read_gen false true.
+(** the code before the drop guard, and the code before both repairs *)
+Definition run_read_unguarded := run_read_gen false false.
+Definition run_read_legacy := run_read_gen true false.
 
-(** spec component for the oracle: (L (B init) (B bytes-before-first-failure) (L [failure]) (N max));
-    the relation [read_spec] itself is evaluated by the driver on the implementation's answer. *)
+(** spec component for the oracle:
+    (L (B init) (B bytes-before-first-failure) (L [failure]) (N max) (L [bytes-before-the-point-of-cancellation]));
+    the relation [poll_spec] itself is evaluated by the driver on the implementation's answer. *)
 Definition run_read_spec (x : xval) : xval :=
   match x with
-  | XL [XB init; XN spare; XN max; evs; XB pat] =>
-      match d_list d_chunk evs with
-      | Some cs => XL [XB init; XB (fst (pre_fail cs)); x_option XN (snd (pre_fail cs)); XN max]
-      | None => bad_input
+  | XL (XB init :: XN spare :: XN max :: evs :: XB pat :: pt) =>
+      match d_list d_chunk evs, d_patience pt with
+      | Some cs, Some patience =>
+          XL [XB init; XB (fst (pre_fail cs)); x_option XN (snd (pre_fail cs)); XN max;
+              x_option XB (match patience with
+                           | Some k => option_map fst (before_stall k cs)
+                           | None => None
+                           end)]
+      | _, _ => bad_input
       end
   | _ => bad_input
   end.
@@ -384,13 +639,76 @@ Definition run_file_spec (x : xval) : xval :=
   | _ => bad_input
   end.
 
+(** histories of file operations:
+    (L (N 0) (N p) (B content) (N mtime))   write file p
+    (L (N 1) (N p))                          remove it
+    (L (N 2) (N p) (N mtime))                make p a directory (it opens; reading it fails)
+    (L (N 3) (N variant) (N p) (N cached))   read it: variant 0 file, 1 file_cached, 2 file_cached_with_mtime;
+                                             cached 1 = through the case's FileCache, 0 = with no cache
+    (L (N 4) (N p) (B path) (B content))     p stands for a file the harness did not make (e.g. /proc/version) *)
+Definition d_fop (x : xval) : option fop :=
+  match x with
+  | XL [XN 0; XN p; XB content; XN m] => Some (FWrite p [Data content] m)
+  | XL [XN 1; XN p] => Some (FRemove p)
+  | XL [XN 2; XN p; XN m] => Some (FWrite p [Fail 21] m)
+  | XL [XN 3; XN v; XN p; c] =>
+      match d_bool c with
+      | Some c => if v =? 0 then Some (FRead VFile p c) else if v =? 1 then Some (FRead VCached p c)
+                  else if v =? 2 then Some (FRead VCachedMtime p c) else None
+      | None => None
+      end
+  | XL [XN 4; XN p; XB _; XB content] => Some (FWrite p [Data content] 0)
+  | _ => None
+  end.
+Definition x_fres (r : fres) : xval :=
+  match r with
+  | None => XL []
+  | Some (d, None) => XL [XB d]
+  | Some (d, Some m) => XL [XB d; XN m]
+  end.
+(** input: (L (L op...) (B junk)) *)
+Definition run_files (x : xval) : xval :=
+  match x with
+  | XL [ops; XB pat] =>
+      match d_list d_fop ops with
+      | Some ops => x_outcome (x_list x_fres) (files_run (fs_read grow_vec (junk_of pat)) 0 [] [] ops)
+      | None => bad_input
+      end
+  | _ => bad_input
+  end.
+Definition run_files_spec (x : xval) : xval :=
+  match x with
+  | XL [ops; XB pat] =>
+      match d_list d_fop ops with
+      | Some ops => x_outcome (x_list x_fres) (files_run fs_content 0 [] [] ops)
+      | None => bad_input
+      end
+  | _ => bad_input
+  end.
+
+(** input: (L (N codec) (N level) (B body) (B junk)): a real encoder writes the compressed body into a
+    [WriteableBytes] (which by [writeable_is_append] holds exactly the bytes written, in order) and the standard
+    decoder reads it back: what comes out is the body.  The codecs themselves are not modelled. *)
+Definition run_encode (x : xval) : xval :=
+  match x with
+  | XL [XN codec; XN level; XB body; XB pat] => x_outcome XB (Ok body)
+  | _ => bad_input
+  end.
+
 Definition buffers_table : list (bytes * (xval -> xval)) :=
-  [ (B "buf.writeable", run_writeable);
+  [ (B "buf.encode", run_encode);
+    (B "buf.encode.spec", run_encode);
+    (B "buf.writeable", run_writeable);
     (B "buf.writeable.spec", run_writeable_spec);
     (B "buf.replace", run_replace);
     (B "buf.replace.spec", run_replace_spec);
+    (B "buf.replace_seq", run_replace_seq);
+    (B "buf.replace_seq.spec", run_replace_seq_spec);
     (B "buf.read", run_read);
+    (B "buf.read.unguarded", run_read_unguarded);
     (B "buf.read.legacy", run_read_legacy);
     (B "buf.read.spec", run_read_spec);
     (B "buf.file", run_file);
-    (B "buf.file.spec", run_file_spec) ].
+    (B "buf.file.spec", run_file_spec);
+    (B "buf.files", run_files);
+    (B "buf.files.spec", run_files_spec) ].
